@@ -332,7 +332,7 @@ impl SortedUintVec {
         let bit_offset = sample_offset % 8;
         
         // Calculate actual bytes needed for this sample width
-        let bytes_needed = ((bit_offset + self.config.sample_width as usize + 7) / 8).min(8);
+        let bytes_needed = (bit_offset + self.config.sample_width as usize + 7) / 8;
         if byte_offset + bytes_needed > self.index.len() {
             return Err(ZiporaError::invalid_data("index data truncated"));
         }
@@ -359,10 +359,23 @@ impl SortedUintVec {
 
         let byte_offset = bit_offset / 8;
         let bit_shift = bit_offset % 8;
-        let bytes_needed = ((bit_shift + bit_width as usize + 7) / 8).min(8);
+        let bytes_needed = (bit_shift + bit_width as usize + 7) / 8;
         
         if byte_offset + bytes_needed > data.len() {
             return Err(ZiporaError::invalid_data("bit extraction out of bounds"));
+        }
+
+        // A field that spans nine bytes does not fit the 8-byte window of the fast paths
+        if bytes_needed > 8 {
+            let mut wide = 0u128;
+            for i in 0..bytes_needed {
+                wide |= (data[byte_offset + i] as u128) << (i * 8);
+            }
+            let mut value = (wide >> bit_shift) as u64;
+            if bit_width < 64 {
+                value &= (1u64 << bit_width) - 1;
+            }
+            return Ok(value);
         }
 
         // Use enhanced BMI2 instructions if available for efficient bit extraction
@@ -831,8 +844,9 @@ impl SortedUintVecBuilder {
             value
         };
 
-        // Store bits using bit manipulation
-        let shifted_value = masked_value << bit_shift;
+        // Store bits using bit manipulation (a field wider than 57 bits that starts inside a
+        // byte spans nine bytes, so shift in 128 bits)
+        let shifted_value = (masked_value as u128) << bit_shift;
         
         for i in 0..bytes_needed {
             if byte_offset + i < data.len() {
@@ -875,8 +889,9 @@ impl SortedUintVecBuilder {
             value
         };
 
-        // Store bits using bit manipulation
-        let shifted_value = masked_value << bit_shift;
+        // Store bits using bit manipulation (a field wider than 57 bits that starts inside a
+        // byte spans nine bytes, so shift in 128 bits)
+        let shifted_value = (masked_value as u128) << bit_shift;
         
         for i in 0..bytes_needed {
             if byte_offset + i < data.len() {
